@@ -45,9 +45,23 @@ def observe(tree, beam, sub):
     if sub is not None:
         sc = seg.subcell(sub[0], sub[1])
         obs["sub"] = {"names": [e.name for e in sc.elements], "out": _try(lambda: zl.observe_beam(sc.track(b)))}
+        # the property on the implementation alone (independent of the Coq model): with unique child names and `start` not after
+        # `stop`, the sub-cell is the contiguous slice [start .. stop] of the children (a single element when start == stop)
+        names = [c["name"] for c in tree["es"]]
+        if len(set(names)) == len(names) and sub[0] in names and sub[1] in names and names.index(sub[0]) <= names.index(sub[1]):
+            obs["sub_expected"] = names[names.index(sub[0]): names.index(sub[1]) + 1]
     else:
         obs["sub"] = None
     return obs
+
+
+def impl_violates(obs):
+    """oracle verdict on one observation: Segment.track == fold == flattened().track, and sub-cells are slices"""
+    if obs["out"] != obs["fold_out"] or obs["out"] != obs["flat_out"]:
+        return True
+    if obs.get("sub_expected") is not None and obs["sub"]["names"] != obs["sub_expected"]:
+        return True
+    return False
 
 
 def observe_batched(trees, beams, sub):
@@ -113,6 +127,8 @@ def gen_case(rng, depth):
     sub = None
     if names and rng.random() < 0.7:
         sub = [rng.choice(names + ["absent"]), rng.choice(names + ["absent"])]
+        if rng.random() < 0.2:
+            sub[1] = sub[0]              # a single-element cut
     return tree, beam, sub
 
 
@@ -177,7 +193,7 @@ def structural(run, n_cases, depth):
         run.count("skippable_segment" if obs["skip"] else "non_skippable_segment")
         run.count("leaves_%d" % min(len(zl.leaves(tree)), 12))
         run.count("kinds_" + "+".join(kinds))
-        if obs["out"] != obs["fold_out"] or obs["out"] != obs["flat_out"]:
+        if impl_violates(obs):
             impl_fail.append(len(cases))
         cases.append((tree, beam, sub, obs))
         terms.append(coq_case(tree, beam, sub, obs))
@@ -411,13 +427,17 @@ def main(tier, replay=None):
         i = impl_fail[0]
         tree, beam, sub, obs = cases[i]
 
-        def pred(t, b, s):
-            o = observe(t, b, None)
-            return o["out"] != o["fold_out"] or o["out"] != o["flat_out"]
-        tree = shrink_tree(tree, beam, None, pred)
-        o = observe(tree, beam, None)
-        run.violation({"kind": "integer_lattice", "tree": tree, "beam": beam, "segment_track": o["out"], "fold_of_element_tracks": o["fold_out"],
-                       "flattened_track": o["flat_out"], "relation": "Segment.track(b) == fold(element.track) == flattened().track(b)"})
+        if obs.get("sub_expected") is not None and obs["sub"]["names"] != obs["sub_expected"] and obs["out"] == obs["fold_out"] == obs["flat_out"]:
+            run.violation({"kind": "integer_lattice", "tree": tree, "beam": beam, "subcell": sub, "subcell_names": obs["sub"]["names"],
+                           "expected_slice": obs["sub_expected"], "relation": "subcell(start, end) is the contiguous slice of the children from start to end"})
+        else:
+            def pred(t, b, s):
+                o = observe(t, b, None)
+                return o["out"] != o["fold_out"] or o["out"] != o["flat_out"]
+            tree = shrink_tree(tree, beam, None, pred)
+            o = observe(tree, beam, None)
+            run.violation({"kind": "integer_lattice", "tree": tree, "beam": beam, "segment_track": o["out"], "fold_of_element_tracks": o["fold_out"],
+                           "flattened_track": o["flat_out"], "relation": "Segment.track(b) == fold(element.track) == flattened().track(b)"})
     elif new_real:
         run.violation(dict(new_real[0], relation="Segment.track == ordered composition of element.track (real elements)"))
     elif failing:
